@@ -12,7 +12,6 @@ import (
 	"crypto/tls"
 	"encoding/json"
 	"fmt"
-	"html"
 	"math"
 	mrand "math/rand/v2"
 	"net/http"
@@ -41,13 +40,14 @@ var (
 	ctlPrefixes  = []string{"/", "/api", "/apiary", "/api/v1", "/a", "/a/b", "api/", "//x//", "/api/", "", "/ab"}
 	ctlReqHosts  = []string{"a.com", "a.com:8080", "a.com:", "b.com", "b.com:443", "x.a.com", "z.a.com", "y.x.a.com", "q.y.x.a.com", "z.x.a.com:80", "localhost", "localhost:3000", "com", "foo.com", ".a.com", "A.COM", "a.com.", "[::1]:80", "[::1]", "a:b:c", "unknown.org", "", "*.a.com", ":80"}
 	ctlReqPaths  = []string{"/", "/api", "/api/", "/apiary", "/api/v1", "/api/v1/x", "/api/v2", "/a", "/a/b", "/a/b/c", "/ab", "/ap", "/x", "/x/y", "/api//x", "//api", "/apix/../api", "/up", "/a/", "/API"}
-	ctlMsgs      = []string{"", "back soon", "down for <b>maintenance</b>", "a & b", "\"quoted\" 'single'"}
+	ctlMsgs      = []string{"", "back soon", "down for <b>maintenance</b>", "a & b", "\"quoted\" 'single'", "{{ .Message }} {{if}}", "<script>alert(1)</script>", "1+1=2 &amp; &lt;", "é ü ✓", "</p></article>", "]</custom503>"}
 	ctlCookieVal = []string{"", "alice", "bob", "1", "22", "user-63237025", "zzz", "0000"}
 )
 
 type genSvc struct {
 	exists  bool
 	deployN int
+	last    *deployParams
 }
 
 func ctlTargets(rng *mrand.Rand, svc string, n *int, rollout bool) []string {
@@ -172,48 +172,93 @@ func genControl(rng *mrand.Rand, n int, tier string, w *bufio.Writer) {
 	}
 }
 
+type deployParams struct {
+	hosts, prefixes              []string
+	tls, redirect, strip         bool
+	cert, key, acmedir, acmecache string
+	pages                        string
+	certok, pagesok              bool
+	hcpath                       string
+	hcint, hctimeout, resptimeout int64
+	bufreq, bufresp, fwd         bool
+	maxmem, maxreq, maxresp      int64
+	logreq, logresp              []string
+}
+
 func genDeployLine(rng *mrand.Rand, w *bufio.Writer, name string, gs *genSvc, hosts, prefixes []string) {
-	hs := []string{}
-	for chance(rng, 75) && len(hs) < 3 {
-		hs = append(hs, pick(rng, hosts))
-	}
-	ps := []string{}
-	for chance(rng, 60) && len(ps) < 3 {
-		ps = append(ps, pick(rng, prefixes))
-	}
-	tlsOn := chance(rng, 35)
-	cert, key := "", ""
-	certok := true
-	if tlsOn && chance(rng, 50) {
-		cert, key = "good.crt", "good.key"
-		if chance(rng, 15) {
-			cert, certok = "bad.crt", false
+	var p deployParams
+	if gs.last != nil && chance(rng, 45) {
+		// a redeploy that changes one or two things relative to the previous deploy of this service
+		p = *gs.last
+		for k := 0; k < 1+rng.IntN(2); k++ {
+			switch rng.IntN(8) {
+			case 0:
+				p.hosts = append(append([]string{}, p.hosts...), pick(rng, ctlHosts))
+			case 1:
+				p.hosts = []string{pick(rng, []string{"*.a.com", "*.x.a.com", "*.com"})}
+			case 2:
+				p.prefixes = append(append([]string{}, p.prefixes...), pick(rng, prefixes))
+			case 3:
+				p.prefixes = []string{pick(rng, ctlPrefixes)}
+			case 4:
+				p.tls = !p.tls
+			case 5:
+				p.redirect = !p.redirect
+			case 6:
+				p.cert, p.key, p.certok = "", "", true
+			case 7:
+				p.strip = !p.strip
+			}
 		}
-	} else if chance(rng, 10) {
-		cert = "good.crt" // only one of the pair: ignored by the server
-	}
-	pages, pagesok := "", true
-	if chance(rng, 20) {
-		pages = "pages-ok"
-		if chance(rng, 30) {
-			pages, pagesok = pick(rng, []string{"pages-bad", "pages-empty", "no-such-dir"}), false
+	} else {
+		for chance(rng, 75) && len(p.hosts) < 3 {
+			p.hosts = append(p.hosts, pick(rng, hosts))
 		}
+		for chance(rng, 60) && len(p.prefixes) < 3 {
+			p.prefixes = append(p.prefixes, pick(rng, prefixes))
+		}
+		p.tls = chance(rng, 35)
+		p.certok = true
+		if p.tls && chance(rng, 50) {
+			p.cert, p.key = "good.crt", "good.key"
+			if chance(rng, 15) {
+				p.cert, p.certok = "bad.crt", false
+			}
+		} else if chance(rng, 10) {
+			p.cert = "good.crt" // only one of the pair: ignored by the server
+		}
+		p.pagesok = true
+		if chance(rng, 20) {
+			p.pages = "pages-ok"
+			if chance(rng, 30) {
+				p.pages, p.pagesok = pick(rng, []string{"pages-bad", "pages-empty", "no-such-dir"}), false
+			}
+		}
+		p.redirect, p.strip = chance(rng, 60), chance(rng, 60)
+		p.acmedir = pick(rng, []string{"", "https://acme.invalid/dir"})
+		p.acmecache = pick(rng, []string{"", "certs"})
+		p.hcpath = pick(rng, []string{"/up", "/up", "/healthz", "/"})
+		p.hcint, p.hctimeout, p.resptimeout = pick(rng, []int64{1e9, 5e8, 2e9}), pick(rng, []int64{5e9, 1e9}), pick(rng, []int64{30e9, 10e9, 0})
+		p.bufreq, p.bufresp, p.fwd = chance(rng, 20), chance(rng, 20), chance(rng, 50)
+		p.maxmem, p.maxreq, p.maxresp = pick(rng, []int64{1 << 20, 0, 1024}), pick(rng, []int64{0, 10, 1 << 20}), pick(rng, []int64{0, 10, 1 << 20})
+		p.logreq, p.logresp = pickSome(rng, []string{"X-A", "Accept"}), pickSome(rng, []string{"X-B", "Content-Type"})
 	}
+	cp := p
+	gs.last = &cp
 	healthy := !chance(rng, 12)
 	ts := ctlTargets(rng, name, &gs.deployN, false)
 	if chance(rng, 6) {
 		ts = append(ts, pick(rng, []string{"x", "bad target", "a:b:c", "web:", ":80", "-web:80", "web:80a"}))
 	}
-	hcpath := pick(rng, []string{"/up", "/up", "/healthz", "/"})
 	fmt.Fprintf(w, "deploy name=%s targets=%s hosts=%s prefixes=%s tls=%s cert=%s key=%s redirect=%s acmedir=%s acmecache=%s pages=%s strip=%s "+
 		"hcpath=%s hcint=%d hctimeout=%d resptimeout=%d bufreq=%s bufresp=%s maxmem=%d maxreq=%d maxresp=%d logreq=%s logresp=%s fwd=%s "+
 		"certok=%s pagesok=%s healthy=%s\n",
-		hexB([]byte(name)), encList(ts), encList(hs), encList(ps), b2s(tlsOn), hexB([]byte(cert)), hexB([]byte(key)), b2s(chance(rng, 60)),
-		hexB([]byte(pick(rng, []string{"", "https://acme.invalid/dir"}))), hexB([]byte(pick(rng, []string{"", "certs"}))), hexB([]byte(pages)), b2s(chance(rng, 60)),
-		hexB([]byte(hcpath)), pick(rng, []int64{1e9, 5e8, 2e9}), pick(rng, []int64{5e9, 1e9}), pick(rng, []int64{30e9, 10e9, 0}),
-		b2s(chance(rng, 20)), b2s(chance(rng, 20)), pick(rng, []int64{1 << 20, 0, 1024}), pick(rng, []int64{0, 10, 1 << 20}), pick(rng, []int64{0, 10, 1 << 20}),
-		encList(pickSome(rng, []string{"X-A", "Accept"})), encList(pickSome(rng, []string{"X-B", "Content-Type"})), b2s(chance(rng, 50)),
-		b2s(certok), b2s(pagesok), b2s(healthy))
+		hexB([]byte(name)), encList(ts), encList(nonNil(p.hosts)), encList(nonNil(p.prefixes)), b2s(p.tls), hexB([]byte(p.cert)), hexB([]byte(p.key)), b2s(p.redirect),
+		hexB([]byte(p.acmedir)), hexB([]byte(p.acmecache)), hexB([]byte(p.pages)), b2s(p.strip),
+		hexB([]byte(p.hcpath)), p.hcint, p.hctimeout, p.resptimeout,
+		b2s(p.bufreq), b2s(p.bufresp), p.maxmem, p.maxreq, p.maxresp,
+		encList(nonNil(p.logreq)), encList(nonNil(p.logresp)), b2s(p.fwd),
+		b2s(p.certok), b2s(p.pagesok), b2s(healthy))
 }
 
 func pickSome(rng *mrand.Rand, xs []string) []string {
@@ -492,7 +537,7 @@ func (r *ctlRun) request(kv map[string]string) string {
 	case res.StatusCode == http.StatusMovedPermanently:
 		return "301 loc=" + hexB([]byte(res.Header.Get("Location")))
 	case res.StatusCode == http.StatusServiceUnavailable:
-		return "503 msg=" + hexB([]byte(extract503Message(rec.Body.String())))
+		return "503 raw=" + hexB([]byte(extract503Message(rec.Body.String())))
 	case res.StatusCode == http.StatusOK && rec.Body.Len() == 0:
 		return "200health"
 	}
@@ -506,8 +551,8 @@ func truncate(s string, n int) string {
 	return s
 }
 
-// extract503Message recovers the operator's message from a rendered 503 page
-// (built-in page or the fixture's custom page); "" for the default text.
+// extract503Message returns the text inserted for the operator's message in a rendered 503
+// page (built-in page or the fixture's custom page), as rendered (escaped); "" for the default text.
 func extract503Message(body string) string {
 	if i := strings.Index(body, "<custom503>["); i >= 0 {
 		rest := body[i+len("<custom503>["):]
@@ -518,7 +563,7 @@ func extract503Message(body string) string {
 		if rest[:j] == "default" {
 			return ""
 		}
-		return html.UnescapeString(rest[:j])
+		return rest[:j]
 	}
 	i := strings.Index(body, "<article>")
 	if i < 0 {
@@ -533,7 +578,7 @@ func extract503Message(body string) string {
 	if a < 0 || b < a {
 		return "?nop"
 	}
-	return html.UnescapeString(rest[a+3 : b])
+	return rest[a+3 : b]
 }
 
 // snapshot renders the state file the way the model's `showSnap` does.
